@@ -439,14 +439,14 @@ func c25ForgedWeak() *explore.Scenario {
 
 func c25Scenarios(thorough bool) []*explore.Scenario {
 	// the weak scenarios run last: EnableWeakCiphers is process-global and irreversible
-	return []*explore.Scenario{c25Traffic("traffic-shapes", false), c25Tamper("every-byte-tamper", false), c25Independent("rfc-reference-record-oracle", false), c25StdPeerKeyUpdates(), c25RetryAfterTimeout(), c25CoalescedPostHandshake(), c25PaddedRecords(),
+	return []*explore.Scenario{c25Traffic("traffic-shapes", false), c25Tamper("every-byte-tamper", false), c25Independent("rfc-reference-record-oracle", false), c25StdPeerKeyUpdates(), c25RetryAfterTimeout(), c25CoalescedPostHandshake(), c25PaddedRecords(), clientKeyUpdateReplyFails("C25"),
 		c25ForgedWeak(), c25Independent("rfc-reference-record-oracle-weak-suites", true)}
 }
 
 func init() {
 	register(&Prop{ID: "C25", Level: "exploration", Variant: "A", Scenarios: c25Scenarios,
 		Run: func(c *explore.Check, thorough bool) {
-			c.Rule = "every (version, suite) the utls server negotiates with a single-suite utls client (TLS 1.3 x3; every TLS 1.2/1.1/1.0 suite of the server's table at each version it is valid for; the 3 weak CBC suites after EnableWeakCiphers) x direction x 1-2 writes with sizes from {0,1,2,15,16,17,16383,16384,16385,32768} x read buffer {1,7,4096,65536} x TLS 1.3 key update {none, before, between, between+requested, after}: bytes read == bytes written; TLS 1.3 against the standard library's server: every sequence of <= 3 client KeyUpdates {plain, requesting one back} and two runs of 40 (all / every other one answered by a server KeyUpdate: a long-lived connection) x 3 suites x 3 chunk sizes with an echo after each; 5 (version, suite) pairs x 3 message sizes x first delivered piece of {1..6,13,21,40,100} bytes followed by one transport timeout in mid-record, Read retried: the message arrives intact; 1-4 KeyUpdate messages coalesced into one record (x 1-2 rounds, 3 clients) followed by data under the updated key; TLS 1.3 records whose inner plaintext carries {0,1,2,17,255,383} bytes of RFC 8446 5.4 padding x 4 content sizes x 3 suites x 3 clients: exactly the content is delivered; tampering: for 5- and 20-byte writes every byte position of the written record(s) XOR 0x01 and XOR 0x80 and every truncation length, both directions: the receiver must return an error and only a prefix of the original. distinct = case"
+			c.Rule = "every (version, suite) the utls server negotiates with a single-suite utls client (TLS 1.3 x3; every TLS 1.2/1.1/1.0 suite of the server's table at each version it is valid for; the 3 weak CBC suites after EnableWeakCiphers) x direction x 1-2 writes with sizes from {0,1,2,15,16,17,16383,16384,16385,32768} x read buffer {1,7,4096,65536} x TLS 1.3 key update {none, before, between, between+requested, after}: bytes read == bytes written; TLS 1.3 against the standard library's server: every sequence of <= 3 client KeyUpdates {plain, requesting one back} and two runs of 40 (all / every other one answered by a server KeyUpdate: a long-lived connection) x 3 suites x 3 chunk sizes with an echo after each; 5 (version, suite) pairs x 3 message sizes x first delivered piece of {1..6,13,21,40,100} bytes followed by one transport timeout in mid-record, Read retried: the message arrives intact; 1-4 KeyUpdate messages coalesced into one record (x 1-2 rounds, 3 clients) followed by data under the updated key; TLS 1.3 records whose inner plaintext carries {0,1,2,17,255,383} bytes of RFC 8446 5.4 padding x 4 content sizes x 3 suites x 3 clients: exactly the content is delivered; 1-2 server KeyUpdates {plain, update_requested} each followed by data while the client transport {works, fails every write} x 3 clients: the client reads exactly what was sent; tampering: for 5- and 20-byte writes every byte position of the written record(s) XOR 0x01 and XOR 0x80 and every truncation length, both directions: the receiver must return an error and only a prefix of the original. distinct = case"
 			c.Assumptions = []string{"tampering is applied to the whole transport write that carries the message (records incl. the TLS 1.0 1/n-1 split)", "no server available in the sandbox negotiates the weak CBC suites: their record layer is exercised on connections forged with MakeConnWithCompleteHandshake (run last, EnableWeakCiphers is process-global)"}
 			runAll(c, c25Scenarios(thorough), 0)
 			c.Gate(c.Total.Counters["streams_compared"] > 5000, "non-vacuity: %d streams", c.Total.Counters["streams_compared"])
